@@ -12,7 +12,7 @@ LEVEL = "exploration"
 N_EXH = 4 + 16 + 64 + 256 + 1024  # histories of length 1..5 over an alphabet of 3 matrices + reset
 CONFIGS = [(k, mn) for k in (1, 2, 3, 4) for mn in (0.0, 0.5, 1.0)]
 BUDGET = {
-    "quick": {"runs": 640, "wall": 420, "chunk": 5, "per_run_cap": 240},
+    "quick": {"runs": 1000, "wall": 420, "chunk": 5, "per_run_cap": 240},
     "thorough": {"runs": N_EXH * len(CONFIGS) + 3000, "wall": 3300, "chunk": 20, "per_run_cap": 240},
 }
 RULE = (
